@@ -369,19 +369,20 @@ class _watchdog:
     def __enter__(self):
         import signal
         import threading
-        if threading.current_thread() is threading.main_thread() and signal.getsignal(signal.SIGALRM) in (signal.SIG_DFL, None):
+        # the limit is on the processor time of this process (ITIMER_PROF), so a loaded machine does not turn a finishing analysis into a timeout
+        if threading.current_thread() is threading.main_thread() and signal.getsignal(signal.SIGPROF) in (signal.SIG_DFL, None):
             def _h(sig, frm):
                 raise _Timeout()
-            signal.signal(signal.SIGALRM, _h)
-            signal.alarm(self.seconds)
+            signal.signal(signal.SIGPROF, _h)
+            signal.setitimer(signal.ITIMER_PROF, self.seconds)
             self.armed = True
         return self
 
     def __exit__(self, *a):
         if self.armed:
             import signal
-            signal.alarm(0)
-            signal.signal(signal.SIGALRM, signal.SIG_DFL)
+            signal.setitimer(signal.ITIMER_PROF, 0)
+            signal.signal(signal.SIGPROF, signal.SIG_DFL)
         return False
 
 
@@ -418,7 +419,9 @@ def run_property(prop, tier='quick', tree=None, quiet=False):
                     m_ = ctx.mod(rel)
                 except AnalysisError:
                     continue
-                hits = [h for h in _lints.module_state_writes(m_) if h[2] not in _lints.DOCUMENTED_MODULE_STATE] + _lints.class_state_writes(m_)
+                hits = _lints.module_state_writes(m_)
+                memo_ = _lints.guarded_memos(m_, hits)
+                hits = [h for h in hits if h[2] not in _lints.DOCUMENTED_MODULE_STATE and h[2] not in memo_] + _lints.class_state_writes(m_)
                 ctx.ob('SHARED-STATE', rel, 'no function writes in place into a module-level array / container or into a class-level mutable default (what one call, or one object, leaves behind would be seen by the next)',
                        not hits, '; '.join('line %d: %s %s is %s' % (st_.lineno, kind_, g_, how_) for _f, st_, g_, how_, kind_ in [(h + ('module-level',))[:5] if len(h) == 4 else h for h in hits][:3]),
                        node=hits[0][1] if hits else None, file=rel, key='shared state ' + rel)
